@@ -362,7 +362,9 @@ impl Builder {
 
         let mut header = self.header.take().unwrap_or_default();
 
-        if self.length.is_some() {
+        if let Some(length) = self.length {
+            // `set_length` may have been called after the fixed part was written.
+            header[LENGTH..LENGTH + 2].copy_from_slice(length.to_be_bytes().as_slice());
             return Ok(header);
         }
 
